@@ -10,7 +10,7 @@ import ast
 from typing import Dict, List, Optional, Set, Tuple
 
 from . import core
-from .shared_state import (CacheInfo, SharedWrite, World, recognise_cache, uses_of_attribute, value_dependencies, write_is_definite)
+from .shared_state import (CacheInfo, SharedWrite, World, published_before, recognise_cache, uses_of_attribute, value_dependencies, write_is_definite)
 
 CACHE_KINDS = {"subscript-store:key", "subscript-store:const", "method:append"}
 
@@ -27,7 +27,7 @@ def api(a):
 '''
 
 
-def classify(ctx, w: World):
+def classify(ctx, w: World, threads: bool = True):
     """-> (admitted caches, admitted counters, violations) as lists of (SharedWrite, info)"""
     writes = w.shared_writes()
     caches: Dict[Tuple[str, str], Tuple[CacheInfo, List[SharedWrite]]] = {}
@@ -35,6 +35,21 @@ def classify(ctx, w: World):
     bad: List[SharedWrite] = []
     for sw in writes:
         kinds = {k.split(" (")[0] for k in sw.kinds}
+        late = None
+        if threads and sw.field and sw.depth >= 2:
+            for kind, line, text in sw.records:
+                if kind.split(" (")[0] in ("subscript-store:const", "subscript-store:key", "attr-store", "method:append", "method:update") or kind.startswith("attr-store:"):
+                    pub = published_before(w.model, sw.origin_func, sw.field, line)
+                    if pub is not None:
+                        late = (kind, line, text, pub)
+                        break
+        if late is not None:
+            # an entry that is modified after it was stored into the shared container: other threads can see it half-built
+            kind, line, text, pub = late
+            sw.origin_line, sw.origin_text = line, text
+            sw.kinds = {f"{kind} after the entry was published at line {pub}", "del"}
+            bad.append(sw)
+            continue
         if sw.field and kinds <= CACHE_KINDS and sw.origin_func in w.model.funcs and w.model.funcs[sw.origin_func].cls:
             key = (sw.origin_func, sw.field)
             if key not in caches:
@@ -111,8 +126,10 @@ def run(ctx):
             problems.append(f"slots are also written by {other_writers}")
         if problems:
             for p in problems:
-                ctx.bad("C16.2", f"cache {name} filled by {func}: {p}", where,
-                        "the write is not an idempotent, key-complete cache fill, so two threads can observe or store different values")
+                definite = p.startswith(("the cached value depends on", "the cached value is computed through"))
+                ctx.ob("C16.2", f"cache {name} filled by {func}: {p}", core.VIOLATED if definite else core.UNDECIDED, where,
+                       "the write is not an idempotent, key-complete cache fill, so two threads can observe or store different values" if definite else
+                       "the fill does not follow the verified idiom; whether racing fills are equivalent is not decided")
         else:
             ctx.ok("C16.2", f"cache {name} filled by {func} is an idempotent key-complete fill", where,
                    f"{ci.variant} variant; key `{core.src(ci.key_expr)}` computed from {sorted(ci.key_vars)}; value depends on {sorted(dep)}; "
